@@ -7,6 +7,8 @@ export CARGO_NET_OFFLINE=true
 (cd executor && cargo build --release --offline 2>&1 | tail -2)
 mkdir -p out
 for m in spec/*.tla; do
+  # Counter.tla is an Apalache module (EXTENDS Apalache, not on SANY's path); it is type-checked by apalache-mc in C04
+  [ "$(basename "$m")" = "Counter.tla" ] && continue
   (cd spec && java -cp /opt/veriftools/tla/tla2tools.jar:/opt/veriftools/tla/CommunityModules-deps.jar tla2sany.SANY "$(basename "$m")") > out/sany.log 2>&1 || { cat out/sany.log; echo "SANY failed on $m"; exit 1; }
   if grep -q "Semantic errors\|Parse Error\|\*\*\* Errors" out/sany.log; then cat out/sany.log; echo "SANY failed on $m"; exit 1; fi
 done
